@@ -158,10 +158,16 @@ FRESH_INT = ["k", "m"]
 
 
 def fresh(inputs, pool):
-    return [n for n in pool if n not in inputs]
+    """at least 4 names of the pool (then pool names with a numeric suffix) that are not in `inputs`"""
+    out = [n for n in pool if n not in inputs]
+    k = 1
+    while len(out) < 4:
+        out += [n + str(k) for n in pool if n + str(k) not in inputs]
+        k += 1
+    return out
 
 
-def real_value(rs, shape, inputs, kind):
+def real_value(rs, shape, inputs, kind, newsize=2):
     """substitution value for a real input of the given shape"""
     if kind == "num_real":
         return {"t": "num_real", "v": float(np.round(rs.randn(), 3))}
@@ -175,7 +181,7 @@ def real_value(rs, shape, inputs, kind):
         return {"t": "tensor_real", "data": enc(rs.randn(*((s,) + tuple(shape)))), "inputs": [[n, s]]}
     if kind == "tensor_newbatch":
         n = fresh(inputs, FRESH_INT)[0]
-        s = int(rs.randint(1, 4))
+        s = newsize
         return {"t": "tensor_real", "data": enc(rs.randn(*((s,) + tuple(shape)))), "inputs": [[n, s]]}
     raise ValueError(kind)
 
@@ -234,8 +240,9 @@ def enumerate_steps(rs, inputs):
         for sub in itertools.combinations(reals, r):
             for kind in kinds:
                 subs = OrderedDict()
+                newsize = int(rs.randint(1, 4))
                 for (n, s) in sub:
-                    subs[n] = real_value(rs, s, inputs, kind)
+                    subs[n] = real_value(rs, s, inputs, kind, newsize)
                 steps.append(("subs_real:%s:%s" % (kind, "+".join(n for n, _ in sub)), {"op": "subs", "subs": subs}))
     for (n, s) in reals:
         if s == ():
@@ -328,4 +335,500 @@ def partner_sigs(rs, inputs, count=4):
     out.append(("other_batch", [[fi[0], "int", int(rs.randint(1, 4))]] + reals[-1:] + ints[:1]))
     if len(reals) > 1:
         out.append(("reals_permuted_nobatch", list(reversed(reals))))
+    return out
+
+
+def rand_rank(rs, dim):
+    rk = rank_set(dim)
+    return int(rk[rs.randint(len(rk))])
+
+
+def add_steps(rs, inputs):
+    out = []
+    for label, sig in partner_sigs(rs, inputs):
+        dim = sig_dim(sig)
+        if dim == 0:
+            continue
+        leaf = gen_leaf(rs, sig, rand_rank(rs, dim))
+        out.append(("add:" + label, {"op": "add", "leaf": leaf, "side": ["left", "right"][rs.randint(2)]}))
+    ints = [(n, d[1]) for n, d in inputs.items() if d[0] == "int"]
+    newi = fresh(inputs, FRESH_INT)
+    tin = ints[:1] + [(newi[0], 2)]
+    out.append(("add_tensor", {"op": "add_tensor", "tensor": {"data": enc(rs.randn(*[s for _, s in tin])), "inputs": [list(t) for t in tin]}}))
+    return out
+
+
+def cat_steps(rs, inputs):
+    """variants of Cat(name, parts, part_name) with the current value as one of the parts"""
+    inputs = OrderedDict(inputs)
+    ints = [(n, d[1]) for n, d in inputs.items() if d[0] == "int"]
+    reals = [(n, d[1]) for n, d in inputs.items() if d[0] == "real"]
+    out = []
+    if not ints or not reals:
+        return out
+    base = sig_from_inputs(inputs)
+    newi = fresh(inputs, FRESH_INT)
+
+    def resized(sig, pn, size):
+        return [[n, k, (size if n == pn else s)] for n, k, s in sig]
+
+    def tensor_for(sig):
+        tin = [(n, s) for n, k, s in sig if k == "int"]
+        return {"data": enc(rs.randn(*[s for _, s in tin])), "inputs": [list(t) for t in tin]}
+
+    for pn, psize in ints:
+        dim = sig_dim(base)
+        # 1. same signature, same name, F first
+        l1 = gen_leaf(rs, resized(base, pn, int(rs.randint(1, 4))), rand_rank(rs, dim))
+        out.append(("cat:same_sig:" + pn, {"op": "cat", "name": pn, "part_name": pn, "others": [l1], "pos": 0}))
+        # 2. renamed, F last
+        l2 = gen_leaf(rs, resized(base, pn, int(rs.randint(1, 4))), rand_rank(rs, dim))
+        out.append(("cat:renamed:" + pn, {"op": "cat", "name": newi[0], "part_name": pn, "others": [l2], "pos": 1}))
+        # 3. three parts, different order of inputs / ranks, F in the middle
+        l3 = gen_leaf(rs, list(reversed(resized(base, pn, int(rs.randint(1, 4))))), rand_rank(rs, dim))
+        l4 = gen_leaf(rs, resized(base, pn, int(rs.randint(1, 4))), rand_rank(rs, dim))
+        out.append(("cat:three_parts:" + pn, {"op": "cat", "name": pn, "part_name": pn, "others": [l3, l4], "pos": 1}))
+        # 4. a part lacking one of the other inputs
+        lack = [t for t in base if t[0] == pn or t[1] == "real"][: 1 + len(reals)]
+        if len(reals) > 1:
+            lack = [t for t in lack if t[0] != reals[-1][0]]
+        if lack != base:
+            l5 = gen_leaf(rs, resized(lack, pn, int(rs.randint(1, 4))), rand_rank(rs, sig_dim(lack)))
+            out.append(("cat:part_lacks_inputs:" + pn, {"op": "cat", "name": pn, "part_name": pn, "others": [l5], "pos": int(rs.randint(2))}))
+            out.append(("cat:part_lacks_inputs_renamed:" + pn, {"op": "cat", "name": newi[-1], "part_name": pn, "others": [l5], "pos": int(rs.randint(2))}))
+        # 5. mixture part
+        sg = resized(base, pn, int(rs.randint(1, 4)))
+        l6 = gen_leaf(rs, sg, rand_rank(rs, dim))
+        out.append(("cat:mixture:" + pn, {"op": "cat", "name": pn, "part_name": pn, "others": [l6], "other_tensors": [tensor_for(sg)], "pos": int(rs.randint(2))}))
+    return out
+
+
+def all_steps(rs, inputs):
+    steps = enumerate_steps(rs, inputs)
+    steps += add_steps(rs, inputs)
+    steps += cat_steps(rs, inputs)
+    steps.append(("compress_interp", {"op": "compress_interp"}))
+    return steps
+
+
+def gen_chain_ops(rs, orc_leaf_fn, orc_step_fn, leaf, depth, max_dim=10, max_inputs=6):
+    """random chain of `depth` operations starting from `leaf`; the oracle is used to track the inputs"""
+    O = orc_leaf_fn(leaf)
+    ops_ = []
+    labels = []
+    for d in range(depth):
+        reals = [n for n, dd in O.inputs.items() if dd[0] == "real"]
+        if not reals:
+            break
+        groups = {}
+        for label, step in all_steps(rs, O.inputs):
+            groups.setdefault(label.split(":")[0], []).append((label, step))
+        # uniform over operation kinds, then uniform inside the kind
+        kinds = sorted(groups)
+        for attempt in range(20):
+            kind = kinds[rs.randint(len(kinds))]
+            label, step = groups[kind][rs.randint(len(groups[kind]))]
+            O2 = orc_step_fn(O, step)
+            dim = sum(prod(dd[1]) for dd in O2.inputs.values() if dd[0] == "real")
+            if dim <= max_dim and len(O2.inputs) <= max_inputs:
+                break
+        else:
+            break
+        ops_.append(step)
+        labels.append(label)
+        O = O2
+    return ops_, labels
+
+
+# ------------------------------------------------------------------------------------------------
+# expressions for extract_affine
+
+
+def affine_test_exprs(rs, shapes, with_batch):
+    """(label, expr) affine in all of its real inputs"""
+    out = []
+    binp = [("i", 2)] if with_batch else []
+    for shape in shapes:
+        shape = tuple(shape)
+        U = ["var", "u", list(shape)]
+        V = ["var", "v", list(shape)]
+        out.append(("var", U))
+        out.append(("neg", ["neg", U]))
+        out.append(("scale_shift", ["add", ["mul", const(rs, (), binp), U], const(rs, shape)]))
+        out.append(("const_minus", ["sub", const(rs, shape, binp), U]))
+        out.append(("two_vars", ["sub", ["mul", const(rs, shape), U], ["div", V, const(rs, (), binp)]]))
+        out.append(("nested", ["add", ["neg", ["add", U, V]], ["mul", const(rs, ()), ["sub", U, const(rs, shape, binp)]]]))
+        out.append(("getitem", ["add", ["getitem", ["var", "w", [2] + list(shape)], 0], U]))
+        out.append(("sum", ["sum", ["mul", U, const(rs, shape)]]))
+        n = prod(shape)
+        out.append(("reshape", ["reshape", ["mul", U, const(rs, shape, binp)], [n]]))
+        if len(shape) == 1:
+            out.append(("vec_mat", ["add", ["matmul", U, const(rs, (shape[0], 3), binp)], ["var", "w", [3]]]))
+            out.append(("mat_vec", ["matmul", const(rs, (2, shape[0])), U]))
+            out.append(("dot", ["matmul", U, const(rs, shape)]))
+        if len(shape) == 2:
+            out.append(("mat_mat", ["matmul", const(rs, (3, shape[0])), ["matmul", U, const(rs, (shape[1], 2), binp)]]))
+            out.append(("getitem2", ["getitem", ["getitem", U, shape[0] - 1], 0]))
+        # mixed shapes (broadcasting of event shapes)
+        if shape:
+            out.append(("broadcast", ["add", U, ["var", "s", []]]))
+    return out
+
+
+# ------------------------------------------------------------------------------------------------
+# C13
+
+
+def subsets(items, min_size=1):
+    items = list(items)
+    for r in range(min_size, len(items) + 1):
+        for sub in itertools.combinations(items, r):
+            yield list(sub)
+
+
+def tensor_spec(rs, tin):
+    return {"data": enc(rs.randn(*[s for _, s in tin])), "inputs": [list(t) for t in tin]}
+
+
+def const_subs(rs, reals):
+    return OrderedDict((n, {"t": "tensor_real", "data": enc(rs.randn(*s)), "inputs": []}) for n, s in reals)
+
+
+def c13_programs(rs, sig, rank):
+    """(label, program, tensor|None) for a leaf of the given signature/rank (precondition: every reduced real block
+    has dimension <= rank)"""
+    reals = [(n, tuple(s)) for n, k, s in sig if k == "real"]
+    ints = [(n, s) for n, k, s in sig if k == "int"]
+    dimof = lambda sub: sum(prod(s) for _, s in sub)
+    dim = dimof(reals)
+    out = []
+    RL = lambda names: {"op": "reduce", "red": "logaddexp", "names": list(names)}
+    RA = lambda names: {"op": "reduce", "red": "add", "names": list(names)}
+    for B in subsets(reals):
+        if dimof(B) > rank:
+            continue
+        bn = [n for n, _ in B]
+        rest = [r for r in reals if r[0] not in bn]
+        out.append(("marg:" + "+".join(bn), [RL(bn)], None))
+        for J in subsets(ints):
+            jn = [n for n, _ in J]
+            out.append(("marg+ints:" + "+".join(bn + jn), [RL(bn + jn)], None))
+        # marginalisation commutes with itself
+        for B2 in subsets(rest):
+            if dimof(B) + dimof(B2) > rank:
+                continue
+            out.append(("marg;marg:%s;%s" % ("+".join(bn), "+".join(n for n, _ in B2)), [RL(bn), RL([n for n, _ in B2])], None))
+        # ... and with pointwise evaluation of remaining inputs
+        for A in subsets(rest):
+            an = "+".join(n for n, _ in A)
+            out.append(("eval;marg:%s;%s" % (an, "+".join(bn)), [{"op": "subs", "subs": const_subs(rs, A)}, RL(bn)], None))
+            out.append(("marg;eval:%s;%s" % ("+".join(bn), an), [RL(bn), {"op": "subs", "subs": const_subs(rs, A)}], None))
+        if ints:
+            n0, s0 = ints[0]
+            isub = {"op": "subs", "subs": {n0: {"t": "num_int", "v": int(rs.randint(s0))}}}
+            out.append(("evalint;marg:%s;%s" % (n0, "+".join(bn)), [isub, RL(bn)], None))
+            out.append(("marg;evalint:%s;%s" % ("+".join(bn), n0), [RL(bn), isub], None))
+    if rank >= dim:
+        out.append(("log_normalizer", [{"op": "log_normalizer"}], None))
+    # plates
+    for J in subsets(ints):
+        jn = [n for n, _ in J]
+        out.append(("plate:" + "+".join(jn), [RA(jn)], None))
+        for B in subsets(reals):
+            if dimof(B) <= rank:
+                out.append(("plate;marg:%s;%s" % ("+".join(jn), "+".join(n for n, _ in B)), [RA(jn), RL([n for n, _ in B])], None))
+    if len(ints) == 2:
+        out.append(("plate;plate", [RA([ints[1][0]]), RA([ints[0][0]])], None))
+    # mixtures  t + g
+    newi = fresh(dict((n, 0) for n, _, _ in sig), FRESH_INT)
+    tins = [list(ints), list(reversed(ints)), ints[:1], ints[-1:] + [(newi[0], 2)]] if ints else [[(newi[0], 2)]]
+    seen = []
+    for tin in tins:
+        if tin in seen:
+            continue
+        seen.append(tin)
+        all_ints = ints + [t for t in tin if t not in ints]
+        tl = "t[" + ",".join(n for n, _ in tin) + "]"
+        for J in subsets(all_ints):
+            jn = [n for n, _ in J]
+            out.append(("mix:%s:ints:%s" % (tl, "+".join(jn)), [RL(jn)], tensor_spec(rs, tin)))
+            if rank >= dim:
+                rn = [n for n, _ in reals]
+                out.append(("mix:%s:ints+reals:%s" % (tl, "+".join(jn)), [RL(jn + rn)], tensor_spec(rs, tin)))
+                out.append(("mix:%s:reals;ints:%s" % (tl, "+".join(jn)), [RL(rn), RL(jn)], tensor_spec(rs, tin)))
+                out.append(("mix:%s:ints;reals:%s" % (tl, "+".join(jn)), [RL(jn), RL(rn)], tensor_spec(rs, tin)))
+            for B in subsets(reals):
+                if dimof(B) <= rank and len(B) < len(reals):
+                    out.append(("mix:%s:partial_reals+ints:%s" % (tl, "+".join(jn)), [RL(jn + [n for n, _ in B])], tensor_spec(rs, tin)))
+                    break
+        for B in subsets(reals):
+            if dimof(B) <= rank:
+                out.append(("mix:%s:reals:%s" % (tl, "+".join(n for n, _ in B)), [RL([n for n, _ in B])], tensor_spec(rs, tin)))
+    return out
+
+
+def c13_integrands(rs, sig):
+    """(label, integrand, names) for a full-rank measure with signature sig"""
+    reals = [(n, tuple(s)) for n, k, s in sig if k == "real"]
+    ints = [(n, s) for n, k, s in sig if k == "int"]
+    rn = [n for n, _ in reals]
+    out = []
+    name_sets = [("reals", rn)] + ([("reals+" + ints[0][0], rn + [ints[0][0]])] if ints else [])
+    newi = fresh(dict((n, 0) for n, _, _ in sig), FRESH_INT)
+    for nl, names in name_sets:
+        for n, s in reals:
+            out.append(("var:%s:%s" % (n, nl), {"t": "var", "name": n, "shape": list(s)}, names))
+        n, s = reals[0]
+        X = ["var", n, list(s)]
+        out.append(("affine:scale_shift:" + nl, {"t": "affine", "expr": ["add", ["mul", const(rs, ()), X], const(rs, s)]}, names))
+        if len(reals) > 1 and reals[1][1] == s:
+            out.append(("affine:two_vars:" + nl, {"t": "affine", "expr": ["sub", X, ["var", reals[1][0], list(s)]]}, names))
+        if s:
+            out.append(("affine:sum:" + nl, {"t": "affine", "expr": ["sum", X]}, names))
+        # Gaussian integrands over subsets of the reals, any rank, several batch layouts
+        for B in subsets(reals):
+            dimB = sum(prod(sh) for _, sh in B)
+            for bl, bints in [("nobatch", []), ("samebatch", list(reversed(ints))), ("newbatch", ints[:1] + [(newi[0], 2)])]:
+                if bl == "samebatch" and not ints:
+                    continue
+                sig2 = [[nn, "real", list(sh)] for nn, sh in reversed(B)] + [[nn, "int", ss] for nn, ss in bints]
+                if rs.rand() < 0.5:
+                    sig2 = list(reversed(sig2))
+                r2 = rand_rank(rs, dimB)
+                out.append(("gaussian:%s:%s:rank%d:%s" % ("+".join(nn for nn, _ in B), bl, r2, nl), {"t": "gaussian", "leaf": gen_leaf(rs, sig2, r2)}, names))
+        sigB = [[nn, "real", list(sh)] for nn, sh in reals]
+        out.append(("neg_gaussian:" + nl, {"t": "neg_gaussian", "leaf": gen_leaf(rs, sigB, rand_rank(rs, sig_dim(sigB)))}, names))
+        out.append(("sum_gaussians:" + nl, {"t": "sum_gaussians", "leaves": [gen_leaf(rs, sigB, rand_rank(rs, sig_dim(sigB))), gen_leaf(rs, sigB[:1], rand_rank(rs, sig_dim(sigB[:1])))]}, names))
+    return out
+
+
+def c13_deficient(rs, sig):
+    """(label, spec-fragment) for the error clause"""
+    reals = [(n, tuple(s)) for n, k, s in sig if k == "real"]
+    dimof = lambda sub: sum(prod(s) for _, s in sub)
+    dim = dimof(reals)
+    out = []
+    for B in subsets(reals):
+        dB = dimof(B)
+        for rank in sorted({0, dB - 1, dB // 2}):
+            if 0 <= rank < dB:
+                leaf = gen_leaf(rs, sig, rank)
+                bn = [n for n, _ in B]
+                out.append(("rank<dim_b:reduce:%s:rank%d" % ("+".join(bn), rank), {"leaf": leaf, "via": "reduce", "names": bn, "why": "rank<dim_b"}))
+                if len(B) == len(reals):
+                    out.append(("rank<dim:log_normalizer:rank%d" % rank, {"leaf": leaf, "via": "log_normalizer", "names": bn, "why": "rank<dim"}))
+                    if len(reals) == 1:
+                        out.append(("rank<dim:integrate_variable:rank%d" % rank, {"leaf": leaf, "via": "integrate_variable", "names": bn, "why": "rank<dim"}))
+                out.append(("rank<dim_b:sample:%s:rank%d" % ("+".join(bn), rank), {"leaf": leaf, "via": "sample", "names": bn, "why": "rank<dim_b"}))
+    # structurally deficient block although the total rank is large enough
+    if len(reals) >= 2:
+        ints = [[n, k, s] for n, k, s in sig if k == "int"]
+        for (n, s) in reals:
+            dB = prod(s)
+            others = [[m, "real", list(t)] for m, t in reals if m != n]
+            d_o = sig_dim(others)
+            for rb in sorted({0, dB - 1}):
+                if d_o + rb >= dB:
+                    l1 = gen_leaf(rs, ints + others, d_o)
+                    l2 = gen_leaf(rs, [[n, "real", list(s)]] + ints[:1], rb)
+                    out.append(("block_deficient:reduce:%s:blockrank%d" % (n, rb), {"leaf": l1, "add": [l2], "via": "reduce", "names": [n], "why": "block_rank_deficient"}))
+                    out.append(("block_deficient:sample:%s:blockrank%d" % (n, rb), {"leaf": l1, "add": [l2], "via": "sample", "names": [n], "why": "block_rank_deficient"}))
+    return out
+
+
+def c13_mm(rs, sig):
+    """(label, tensor, names) for moment matching on a full-rank leaf with >= 1 batch input"""
+    reals = [(n, tuple(s)) for n, k, s in sig if k == "real"]
+    ints = [(n, s) for n, k, s in sig if k == "int"]
+    out = []
+    newi = fresh(dict((n, 0) for n, _, _ in sig), FRESH_INT)
+    tins = [list(ints), list(reversed(ints)), ints[:1], ints[-1:] + [(newi[0], 2)]]
+    seen = []
+    for tin in tins:
+        if tin in seen:
+            continue
+        seen.append(tin)
+        tl = "t[" + ",".join(n for n, _ in tin) + "]"
+        all_ints = ints + [t for t in tin if t not in ints]
+        for J in subsets(all_ints):
+            jn = [n for n, _ in J]
+            out.append(("mm:%s:%s" % (tl, "+".join(jn)), tensor_spec(rs, tin), jn))
+            if len(reals) > 1:
+                out.append(("mm:%s:%s+%s" % (tl, "+".join(jn), reals[0][0]), tensor_spec(rs, tin), jn + [reals[0][0]]))
+            out.append(("mm:%s:%s+allreals" % (tl, "+".join(jn)), tensor_spec(rs, tin), jn + [n for n, _ in reals]))
+    return out
+
+
+# ------------------------------------------------------------------------------------------------
+# C14
+
+
+def dy(rs, shape=()):
+    return rs.randint(-16, 17, size=shape) / 8.0
+
+
+def delta_specs(rs):
+    """(label, spec-fragment) for Delta(name, point, log_density) over every kind of point / log_density"""
+    out = []
+    lds = [
+        ("ld_default", None),
+        ("ld_zero", {"t": "num_real", "v": 0.0}),
+        ("ld_num", {"t": "num_real", "v": float(dy(rs))}),
+        ("ld_tensor_i", {"t": "tensor_real", "data": enc(dy(rs, (3,))), "inputs": [["i", 3]]}),
+        ("ld_tensor_k", {"t": "tensor_real", "data": enc(dy(rs, (2,))), "inputs": [["k", 2]]}),
+    ]
+    for shape in [(), (2,), (2, 2), (1,), (3,)]:
+        dom = ["real", list(shape)]
+        pts = []
+        if shape == ():
+            pts.append(("pt_number", {"t": "num_real", "v": float(dy(rs))}))
+            pts.append(("pt_pyfloat", {"t": "py_float", "v": float(dy(rs))}))
+        pts.append(("pt_tensor", {"t": "tensor_real", "data": enc(dy(rs, shape)), "inputs": []}))
+        pts.append(("pt_tensor_i", {"t": "tensor_real", "data": enc(dy(rs, (3,) + shape)), "inputs": [["i", 3]]}))
+        pts.append(("pt_tensor_ij", {"t": "tensor_real", "data": enc(dy(rs, (3, 2) + shape)), "inputs": [["i", 3], ["j", 2]]}))
+        Y = ["var", "y", list(shape)]
+        c = lambda sh=(), inp=(): ["const", enc(dy(rs, tuple(s for _, s in inp) + tuple(sh))), [list(t) for t in inp]]
+        pts.append(("pt_lazy_var", {"t": "affine", "expr": Y}))
+        pts.append(("pt_lazy_affine", {"t": "affine", "expr": ["add", ["mul", ["const", enc(np.array(2.0)), []], Y], c(shape)]}))
+        pts.append(("pt_lazy_affine_i", {"t": "affine", "expr": ["sub", Y, c(shape, [("i", 3)])]}))
+        pts.append(("pt_lazy_two", {"t": "affine", "expr": ["add", Y, ["var", "z", list(shape)]]}))
+        pts.append(("pt_lazy_getitem", {"t": "affine", "expr": ["getitem", ["var", "y", [2] + list(shape)], 1]}))
+        for pl, pv in pts:
+            for ll, ld in lds:
+                out.append(("real%s:%s:%s" % (list(shape), pl, ll), {"name": "x", "dom": dom, "point": pv, "log_density": ld}))
+    for size in [1, 2, 4]:
+        dom = ["int", size]
+        pts = [
+            ("pt_number", {"t": "num_int", "v": int(rs.randint(size))}),
+            ("pt_tensor_i", {"t": "tensor_int", "data": enc(rs.randint(size, size=3)), "inputs": [["i", 3]]}),
+            ("pt_tensor_ij", {"t": "tensor_int", "data": enc(rs.randint(size, size=(3, 2))), "inputs": [["i", 3], ["j", 2]]}),
+            ("pt_lazy_var", {"t": "var", "name": "w"}),
+        ]
+        for pl, pv in pts:
+            for ll, ld in lds:
+                out.append(("bint%d:%s:%s" % (size, pl, ll), {"name": "v", "dom": dom, "point": pv, "log_density": ld}))
+    return out
+
+
+def delta_f_specs(rs, frag):
+    """summands / integrands f for a Delta fragment: (label, f, vias)"""
+    name, dom = frag["name"], frag["dom"]
+    out = []
+    ld = frag["log_density"]
+    if not (ld is None or (ld["t"] == "num_real" and ld["v"] == 0.0)):
+        return out  # the statement speaks about unit-mass Deltas only
+    both = ["reduce_left", "reduce_right", "integrate"]
+    if dom[0] == "real":
+        shape = list(dom[1])
+        for label, sig in [
+            ("gauss_x", [[name, "real", shape]]),
+            ("gauss_ax_i", [["a", "real", []], ["i", "int", 3], [name, "real", shape]]),
+            ("gauss_xa_m", [[name, "real", shape], ["m", "int", 2], ["a", "real", [2]]]),
+        ]:
+            d = sig_dim(sig)
+            out.append((label, {"t": "leaf", "leaf": gen_leaf(rs, sig, rand_rank(rs, d))}, both))
+        X = ["var", name, shape]
+        out.append(("expr_var", {"t": "expr", "expr": X}, ["integrate"]))
+        out.append(("expr_affine", {"t": "expr", "expr": ["add", ["mul", ["const", enc(np.array(3.0)), []], X], ["const", enc(dy(rs, (3,) + tuple(shape))), [["i", 3]]]]}, ["integrate"]))
+        out.append(("expr_square", {"t": "expr", "expr": ["sum", ["mul", X, X]]}, both))
+        out.append(("tensor_unrelated", {"t": "tensor", "tensor": tensor_spec(rs, [("i", 3)])}, both))
+    else:
+        size = dom[1]
+        out.append(("tensor_v", {"t": "tensor", "tensor": tensor_spec(rs, [(name, size)])}, both))
+        out.append(("tensor_iv", {"t": "tensor", "tensor": tensor_spec(rs, [("i", 3), (name, size)])}, both))
+        out.append(("tensor_vm", {"t": "tensor", "tensor": tensor_spec(rs, [(name, size), ("m", 2)])}, both))
+        out.append(("gauss_v", {"t": "leaf", "leaf": gen_leaf(rs, [[name, "int", size], ["a", "real", [2]]], int(rs.randint(0, 4)))}, both))
+    return out
+
+
+def tensor_with_neginf(rs, sizes, frac):
+    a = np.round(rs.randn(*sizes), 3)
+    mask = rs.rand(*sizes) < frac
+    a[mask] = -np.inf
+    return a
+
+
+def tensor_sample_specs(rs, sizes_pool, reps=1):
+    """every input count 1..3 with sizes from the pool (sorted multisets x orders), every subset sampled, 0..2 sample inputs"""
+    out = []
+    names = ["a", "b", "c"]
+    for n in (1, 2, 3):
+        for sizes in itertools.product(sizes_pool, repeat=n):
+            tin = [(names[k], sizes[k]) for k in range(n)]
+            for sub in subsets(names[:n]):
+                for sin in ([], [["s", 2]], [["s", 3], ["t", 2]]):
+                    for rep in range(reps):
+                        frac = [0.0, 0.3, 0.6][int(rs.randint(3))]
+                        data = tensor_with_neginf(rs, sizes, frac)
+                        out.append(("tensor_sample:%s:%s:%d" % (list(sizes), "+".join(sub), len(sin)), {"tensor": {"data": enc(data), "inputs": [list(t) for t in tin]}, "sampled": sub, "sample_inputs": sin}))
+    return out
+
+
+def gaussian_sample_specs(rs, sig):
+    reals = [(n, tuple(s)) for n, k, s in sig if k == "real"]
+    dimof = lambda sub: sum(prod(s) for _, s in sub)
+    dim = dimof(reals)
+    out = []
+    for B in subsets(reals):
+        dB = dimof(B)
+        for rank in sorted({r for r in rank_set(dim) if r >= dB and r <= 2 * dim}):
+            if len(B) == len(reals) and rank < dim:
+                continue
+            leaf = gen_leaf(rs, sig, rank, blocks=True)
+            for mode in ([], [["s", 2]], [["s", 3], ["t", 2]], "reparam"):
+                ml = mode if mode == "reparam" else "bint%d" % len(mode)
+                out.append(("gaussian_sample:%s:rank%d:%s" % ("+".join(n for n, _ in B), rank, ml), {"leaf": leaf, "sampled": [n for n, _ in B], "mode": mode}))
+    return out
+
+
+def mc_gaussian_specs(rs, sig):
+    reals = [(n, tuple(s)) for n, k, s in sig if k == "real"]
+    ints = [(n, s) for n, k, s in sig if k == "int"]
+    dim = sig_dim(sig)
+    out = []
+    for rank in sorted({dim, dim + 1, 2 * dim}):
+        leaf = gen_leaf(rs, sig, rank, blocks=True)
+        n0, s0 = reals[0]
+        X = ["var", n0, list(s0)]
+        fs = [
+            ("var", {"t": "expr", "expr": X}),
+            ("affine", {"t": "expr", "expr": ["add", ["mul", const(rs, ()), X], const(rs, s0, ints[:1])]}),
+            ("square", {"t": "expr", "expr": ["sum", ["mul", X, X]]}),
+            ("gaussian", {"t": "leaf", "leaf": gen_leaf(rs, [[n, "real", list(s)] for n, s in reversed(reals)] + [[n, "int", s] for n, s in ints[:1]], rand_rank(rs, dim))}),
+        ]
+        for fl, f in fs:
+            for sin in ([], [["s", 2]], [["s", 3], ["t", 2]]):
+                out.append(("mc_gaussian:rank%d:%s:%d" % (rank, fl, len(sin)), {"leaf": leaf, "f": f, "sample_inputs": sin}))
+    return out
+
+
+def mixture_sample_specs(rs, sig):
+    """(label, fragment): t + g with g full rank, sampled: ints only / reals only / both"""
+    reals = [(n, tuple(s)) for n, k, s in sig if k == "real"]
+    ints = [(n, s) for n, k, s in sig if k == "int"]
+    if not ints:
+        return []
+    dim = sig_dim(sig)
+    out = []
+    for rank in sorted({dim, dim + 1}):
+        leaf = gen_leaf(rs, sig, rank, blocks=True)
+        for tin in [list(ints), ints[:1], list(reversed(ints))][: 1 + len(ints)]:
+            for J in subsets(ints, 0):
+                for B in ([], reals[:1], reals):
+                    sampled = [n for n, _ in J] + [n for n, _ in B]
+                    if not sampled:
+                        continue
+                    for sin in ([], [["s", 2]], [["s", 3], ["t", 2]]):
+                        out.append(("mixture_sample:rank%d:t[%s]:%s:%d" % (rank, ",".join(n for n, _ in tin), "+".join(sampled), len(sin)), {"leaf": leaf, "tensor": tensor_spec(rs, tin), "sampled": sampled, "sample_inputs": sin}))
+    return out
+
+
+def c13_mixture_integrands(rs, sig):
+    """(label, integrand, names, tensor) with a mixture measure t + g"""
+    ints = [(n, s) for n, k, s in sig if k == "int"]
+    newi = fresh(dict((n, 0) for n, _, _ in sig), FRESH_INT)
+    out = []
+    for tin in ([list(ints)] if ints else []) + [ints[:1] + [(newi[-1], 2)]]:
+        for label, ig, names in c13_integrands(rs, sig)[::3]:
+            out.append(("mixture[%s]:%s" % (",".join(n for n, _ in tin), label), ig, names, tensor_spec(rs, tin)))
     return out
